@@ -6,6 +6,7 @@ import (
 
 	"github.com/openfga/openfga/verifharness/drive"
 	"github.com/openfga/openfga/verifharness/ref"
+	"github.com/openfga/openfga/verifharness/vk"
 )
 
 // FindingCondSwallowed: condition-evaluation errors are dropped by the conditions-filtered tuple
@@ -242,7 +243,6 @@ func ClassifyLimit(prefix, engine string, rc *ref.Case, relation, user string, w
 	return finding
 }
 
-
 // FindingV2TuplesetUserset: the weighted-graph engine reads tupleset relations with a type-prefix
 // user filter and does not drop (invalid, left-over) tuples whose user is a userset "T:id#rel"; it
 // then follows "T:id" as if it were the parent object.
@@ -368,7 +368,6 @@ func RecursiveUsersetReachedTwice(m *ref.Model, typ, rel string) bool {
 	}
 	return false
 }
-
 
 // ErrorNamesInvalidTuplesetTuple reports whether a condition-evaluation error names a tuple of the
 // case that sits on a tupleset relation with a userset user (invalid for the model, must be ignored).
@@ -499,4 +498,18 @@ func PipelineHangShape(rm *ref.Model, typ, rel string) bool {
 		return false
 	}
 	return walkRel(rel)
+}
+
+// Hung reports whether one of the list requests was abandoned by the drive watchdog (drive.HangAfter)
+// and books it. Termination is the subject of C20 and C21 (which attribute the listed pipeline teardown
+// deadlock); every other check counts such a request as inconclusive and does not judge its answer.
+func Hung(c *vk.Ctx, where string, los ...drive.ListOutcome) bool {
+	for _, lo := range los {
+		if lo.Hung {
+			c.Inconclusive("list request abandoned by the watchdog after " + drive.HangAfter.String() + " (termination is judged by C20/C21) on " + where)
+			c.Logf("HANG: list request on %s did not return within %s; not judged here", where, drive.HangAfter)
+			return true
+		}
+	}
+	return false
 }
